@@ -596,6 +596,37 @@ PROPS["C07"] = dict(
 )
 
 
+
+# ------------------------------------------------------------------ in-memory transports (Chan.tla): C15 (and panics for C16)
+def chan_to_sched(g, consts):
+    import hashlib
+    h = int(hashlib.sha1(repr(g["steps"]).encode()).hexdigest(), 16)
+    cfg = {"bounded": bool(consts["Bounded"]), "cap": consts["Cap"], "dir": ["c2s", "s2c"][h % 2]}
+    return dict(cfg=cfg, steps=g["steps"], tags=("bounded" if cfg["bounded"] else "unbounded", cfg["dir"]))
+
+
+def chan_export(name, bounded, cap):
+    return dict(module="MC_Chan", name=name, constants=dict(Msgs=3, Cap=cap, Bounded=bounded, ExportSched=True),
+                quick={}, thorough=dict(Msgs=4), to_sched=chan_to_sched, cap_quick=600, cap_thorough=6000, timeout=300,
+                simulate_quick=500, simulate_thorough=6000, depth=30)
+
+
+def chan_model(name, bounded, cap):
+    return dict(module="MC_Chan", name=name, constants=dict(Msgs=3, Cap=cap, Bounded=bounded, ExportSched=False),
+                quick={}, thorough=dict(Msgs=5), invariants=["Inv_Prefix", "Inv_Eos", "Inv_NothingLost", "Inv_Room"], coverage=False)
+
+
+def mem_family(rq, rt):
+    return dict(family="mem", trace_module="Trace_Mem", random_quick=rq, random_thorough=rt,
+                exports=[chan_export("unbounded", False, 1), chan_export("bounded-1", True, 1), chan_export("bounded-2", True, 2)])
+
+
+PROPS["C15"]["models"] += [chan_model("chan-unbounded", False, 1), chan_model("chan-bounded-1", True, 1), chan_model("chan-bounded-2", True, 2)]
+PROPS["C15"]["families"].append(mem_family(800, 15000))
+PROPS["C15"]["assumptions"] = PROPS["C15"]["assumptions"] + [
+    "in-memory transports are additionally driven step by step (ready/send/flush/close/recv/drop of either endpoint) along every "
+    "interleaving Chan.tla allows for 3 messages (4 in the thorough tier), one direction at a time"]
+
 # ------------------------------------------------------------------ glue (Glue.tla): C17
 def glue_to_sched(g, consts):
     ms = g["methods"]
@@ -603,16 +634,19 @@ def glue_to_sched(g, consts):
     variants = ["".join(m["variant"]) for m in ms]
     if any(n in ("new", "serve") for n in names):
         reason = "reserved"
-    elif any(m["argty"] == "ctx" for m in ms):
-        reason = "ctxarg"
+    elif g.get("attr") in ("both", "twice"):
+        reason = "attr-" + g["attr"]
+    elif any(m["argty"] in ("ctx", "pattern", "selfarg") for m in ms):
+        reason = [m["argty"] for m in ms if m["argty"] in ("ctx", "pattern", "selfarg")][0] + "arg"
     elif len(set(variants)) < len(variants):
         reason = "collision"
     else:
         reason = "ok"
     sig = "+".join(sorted("%d%s%s" % (m["nargs"], m["argty"][0], m["ret"][0]) for m in ms))
     raw = any(m.get("raw") for m in ms)
-    tags = ("acc" if g["accepted"] else "rej", reason, str(len(ms)), "raw" if raw else "plain", sig if reason == "ok" and len(ms) == 1 else "")
-    return dict(cfg={"methods": ms, "accepted": g["accepted"]}, steps=[], tags=tags)
+    tags = ("acc" if g["accepted"] else "rej", reason, str(len(ms)), "raw" if raw else "plain", g.get("attr", "none"),
+            sig if reason == "ok" and len(ms) == 1 else "")
+    return dict(cfg={"methods": ms, "accepted": g["accepted"], "attr": g.get("attr", "none")}, steps=[], tags=tags)
 
 
 def _glue_runner(wd, scheds, seed, tier):
@@ -627,13 +661,13 @@ PROPS["C17"] = dict(
           "the real macro and every method is called through the generated client with position-distinct argument values and a call-distinct deadline; "
           "each rejected shape is compile-checked; non-trivial = any; distinct by shape"),
     assumptions=["'every definition the macro accepts' is an infinite set of programs; this is the bounded family chosen by the model (no cfg'd methods, "
-                 "attributes or derive options yet)",
+                 "or method attributes; the macro arguments derive / derive_serde are enumerated)",
                  "compile-must-fail is a build probe (cargo check --keep-going), not TLA+",
                  "for raw identifiers both '<Service>.name' and '<Service>.r#name' are accepted as the reported name"],
     models=[dict(module="MC_Glue", name="shapes", constants=dict(MaxMethods=2), quick={}, thorough={}, invariants=["Law_S2C"], coverage=False)],
     families=[dict(family="glue", trace_module="Trace_Glue", runner=_glue_runner, random_quick=0, random_thorough=0,
                    exports=[dict(module="MC_Glue", name="shapes", constants=dict(MaxMethods=2), quick={}, thorough={}, invariants=("ExportJson",),
-                                 to_sched=glue_to_sched, view="", cap_quick=90, cap_thorough=700, timeout=600)])],
+                                 to_sched=glue_to_sched, view="", cap_quick=160, cap_thorough=900, timeout=600)])],
     relevant=lambda e: True,
 )
 
@@ -788,11 +822,13 @@ MANIFEST_TEXT = {
         text=("Wire.tla models length-delimited framing over a byte stream that fragments reads and writes arbitrarily (every chunking of 1-3 byte moves "
               "and Pending results for 2-4 short messages is explored by TLC: delivered is a prefix of sent, complete at end-of-stream) and the error-kind "
               "table of both codecs. The explored chunk scripts are replayed on the real serde transport (JSON and bincode) over a scripted byte pipe with "
-              "concrete messages of every class, the in-memory channels run the same sequences with drop/close/keep endings, and TLC compares every item "
-              "read with the item written (Trace_Wire)."),
+              "concrete messages of every class (also through a byte stream that buffers internally, with its own flush chunk script), and TLC compares "
+              "every item read with the item written (Trace_Wire). Chan.tla models the in-memory transports (tokio unbounded mpsc; futures bounded mpsc with "
+              "its park/unpark rule, flush and close behaviour); every interleaving of ready/send/flush/close/recv/drop-of-either-endpoint for 3 messages "
+              "is replayed step by step on the real transports, predicted results compared, and the trace judged by Trace_Mem."),
         design_ref="DESIGN.md section 6, C15",
         note="Exploration level: the model is exhaustive for tiny messages; concrete values are a chosen set of classes plus seeded random scripts. Byte-exact fidelity of arbitrary payloads is serde's.",
-        technique="TLA+ framing model (TLC) + replay of its chunk schedules on the real transports + TLC trace validation",
+        technique="TLA+ framing and in-memory-channel models (TLC) + replay of their schedules on the real transports + TLC trace validation",
     ),
     "C16": dict(
         text=("Message classes with boundary-valued fields and malformed frames (the concretisation of Wire.tla's classes) are sent into the real decoders, "
